@@ -307,6 +307,38 @@ def variant_of(rng, prog, tid):
     return q
 
 
+def near_variant_of(rng, prog, tid):
+    """A text that differs from `prog` only in a way a careless normalisation would erase: letter case or inner
+    whitespace of ONE string literal, a comment-looking tail inside a string, or the layout between tokens.
+    It keeps prog's labels (`heads` tells the oracles which label prefixes are legitimately its own)."""
+    q = Program()
+    q.tid = tid
+    q.name, q.salt, q.splitters = prog.name, prog.salt, list(prog.splitters)
+    q.cond_fields, q.literals, q.n_returns = list(prog.cond_fields), dict(prog.literals), prog.n_returns
+    toks = list(prog.tokens)
+    idx = [i for i, t in enumerate(toks) if len(t) >= 2 and t[0] in "\"'" and t[-1] == t[0]]
+    how = rng.choice(["case", "inner_space", "trailing_space", "comment_tail", "layout_only"])
+    if idx and how != "layout_only":
+        i = rng.choice(idx)
+        body = toks[i][1:-1]
+        if how == "case":
+            body = body.upper() if body.upper() != body else body.lower()
+        elif how == "inner_space":
+            body = (body[:1] + "  " + body[1:]) if body else "  "
+        elif how == "trailing_space":
+            body = body + " "
+        elif how == "comment_tail":
+            body = body + " // x"
+        toks[i] = toks[i][0] + body + toks[i][0]
+        if i >= 1 and toks[i - 1] == ":" and i >= 2 and toks[i - 2] == "salt":
+            q.salt = body
+    q.tokens = toks
+    q.text = render(rng, toks, p_comment=0.0, compact=(how != "layout_only"))
+    q.kind = "valid"
+    q.note = "near-duplicate (%s) of %s" % (how, prog.tid)
+    return q
+
+
 # ---------------------------------------------------------------------------
 # invalid texts
 # ---------------------------------------------------------------------------
